@@ -1131,6 +1131,134 @@ theorem apply_case (hD : DispatchAgree) (B : Nat) : ApplyCase B := by
               | error e' => trivial
               | ok st => exact Or.inl (Or.inl hl)
 
+/-! ### the dispatch tables -/
+
+theorem dial_op_eq (o al : Val) (m : Nat) (ext : OperatorSet) (c : Ctr) :
+    dial.op o al m ext c = chiaOp {} Proto.noExtra 0 o al m ext c := rfl
+
+/-- `ChiaDialect::op` on a one-byte opcode of the table without a flag requirement -/
+theorem chiaOp_classic {k : Nat} {name : String} {f : OpFn} {ob : Bytes} {oi : Bool} {al : Val} {m : Nat} {c : Ctr}
+    (hs : smallNumber (.atom ob oi) = some k) (hl : ob.length = 1)
+    (hk : lookupOp Gen.chiaOpTable k = some (name, 0)) (hn : (name == "op_modpow") = false)
+    (hf : coreOpByName {} name = some f) :
+    dial.op (.atom ob oi) al m .Default c = some (f 0 m al c) := by
+  rw [dial_op_eq]
+  unfold chiaOp
+  simp only [hl, show ((1 : Nat) == 4) = false by decide, Bool.false_eq_true, if_false,
+    show ((1 : Nat) != 1) = false by decide, hs, hk, bne_self_eq_false, Bool.false_and, hn, hf]
+  rfl
+
+/-- **the dispatch tables agree** on every operator of the fragment: the proved classic operators are
+dispatched to the operator functions that the `ref_op_eq_*` lemmas relate; every other operator ends
+the comparison on the reference side -/
+theorem dispatch_agree : DispatchAgree := by
+  intro ob oi al m c how haw hap ha hs
+  unfold DispRel
+  by_cases hu : unprovedOp ob = true
+  · have hout : coreAd.lookup none operatorLookup ob al.erase = .error .outOfDomain := by
+      simp [coreAd, Adapter.restrictOps, hu]
+    cases dial.op (Val.atom ob oi) al m OperatorSet.Default c with
+    | none => exact hout
+    | some _ => exact Or.inl hout
+  · have hex : ∃ k, k ∈ provedOps ∧ ob = [UInt8.ofNat k] := by
+      simpa [unprovedOp] using hu
+    obtain ⟨k, hk, rfl⟩ := hex
+    simp only [provedOps, List.mem_cons, List.mem_nil_iff, or_false] at hk
+    rcases hk with rfl | rfl | rfl | rfl | rfl | rfl | rfl | rfl | rfl | rfl | rfl | rfl | rfl | rfl | rfl | rfl | rfl | rfl | rfl | rfl | rfl | rfl | rfl
+    · -- op_if
+      rw [chiaOp_classic (name := "op_if") (f := Interp.opIf) ((smallNumber_kw how (by decide) (by decide)).2 rfl) rfl
+        (by decide) (by decide) rfl]
+      exact Or.inr (opIf_agree m al c haw)
+    · -- op_cons
+      rw [chiaOp_classic (name := "op_cons") (f := Interp.opCons) ((smallNumber_kw how (by decide) (by decide)).2 rfl) rfl
+        (by decide) (by decide) rfl]
+      exact Or.inr (opCons_agree m al c haw)
+    · -- op_first
+      rw [chiaOp_classic (name := "op_first") (f := Interp.opFirst) ((smallNumber_kw how (by decide) (by decide)).2 rfl) rfl
+        (by decide) (by decide) rfl]
+      exact Or.inr (opFirst_agree m al c haw)
+    · -- op_rest
+      rw [chiaOp_classic (name := "op_rest") (f := Interp.opRest) ((smallNumber_kw how (by decide) (by decide)).2 rfl) rfl
+        (by decide) (by decide) rfl]
+      exact Or.inr (opRest_agree m al c haw)
+    · -- op_listp
+      rw [chiaOp_classic (name := "op_listp") (f := Interp.opListp) ((smallNumber_kw how (by decide) (by decide)).2 rfl) rfl
+        (by decide) (by decide) rfl]
+      exact Or.inr (opListp_agree m al c haw)
+    · -- op_raise
+      rw [chiaOp_classic (name := "op_raise") (f := Interp.opRaise) ((smallNumber_kw how (by decide) (by decide)).2 rfl) rfl
+        (by decide) (by decide) rfl]
+      exact Or.inr (opRaise_agree m al c)
+    · -- op_eq
+      rw [chiaOp_classic (name := "op_eq") (f := Interp.opEq) ((smallNumber_kw how (by decide) (by decide)).2 rfl) rfl
+        (by decide) (by decide) rfl]
+      exact Or.inr (opEq_agree m al c haw)
+    · -- op_gr_bytes
+      rw [chiaOp_classic (name := "op_gr_bytes") (f := Interp.opGrBytes) ((smallNumber_kw how (by decide) (by decide)).2 rfl) rfl
+        (by decide) (by decide) rfl]
+      exact Or.inr (opGrBytes_agree m al c haw hap)
+    · -- op_sha256
+      rw [chiaOp_classic (name := "op_sha256") (f := Interp.opSha256 {}) ((smallNumber_kw how (by decide) (by decide)).2 rfl) rfl
+        (by decide) (by decide) rfl]
+      exact Or.inr (opSha256_agree m al c haw hap)
+    · -- op_substr
+      rw [chiaOp_classic (name := "op_substr") (f := Interp.opSubstr) ((smallNumber_kw how (by decide) (by decide)).2 rfl) rfl
+        (by decide) (by decide) rfl]
+      exact Or.inr (opSubstr_agree m al c haw hap)
+    · -- op_strlen
+      rw [chiaOp_classic (name := "op_strlen") (f := Interp.opStrlen) ((smallNumber_kw how (by decide) (by decide)).2 rfl) rfl
+        (by decide) (by decide) rfl]
+      exact Or.inr (opStrlen_agree m al c haw)
+    · -- op_add
+      rw [chiaOp_classic (name := "op_add") (f := Interp.opAdd {}) ((smallNumber_kw how (by decide) (by decide)).2 rfl) rfl
+        (by decide) (by decide) rfl]
+      exact Or.inr (opAdd_agree m al c haw hap)
+    · -- op_subtract
+      rw [chiaOp_classic (name := "op_subtract") (f := Interp.opSubtract {}) ((smallNumber_kw how (by decide) (by decide)).2 rfl) rfl
+        (by decide) (by decide) rfl]
+      exact Or.inr (opSubtract_agree m al c haw hap)
+    · -- op_multiply
+      rw [chiaOp_classic (name := "op_multiply") (f := Interp.opMultiply {}) ((smallNumber_kw how (by decide) (by decide)).2 rfl) rfl
+        (by decide) (by decide) rfl]
+      exact Or.inr (opMultiply_agree m al c haw hap)
+    · -- op_div
+      rw [chiaOp_classic (name := "op_div") (f := Interp.opDiv) ((smallNumber_kw how (by decide) (by decide)).2 rfl) rfl
+        (by decide) (by decide) rfl]
+      exact Or.inr (opDiv_agree m al c haw hap)
+    · -- op_divmod
+      rw [chiaOp_classic (name := "op_divmod") (f := Interp.opDivmod) ((smallNumber_kw how (by decide) (by decide)).2 rfl) rfl
+        (by decide) (by decide) rfl]
+      exact Or.inr (opDivmod_agree m al c haw hap)
+    · -- op_gr
+      rw [chiaOp_classic (name := "op_gr") (f := Interp.opGr {}) ((smallNumber_kw how (by decide) (by decide)).2 rfl) rfl
+        (by decide) (by decide) rfl]
+      exact Or.inr (opGr_agree m al c haw hap)
+    · -- op_ash
+      rw [chiaOp_classic (name := "op_ash") (f := Interp.opAsh) ((smallNumber_kw how (by decide) (by decide)).2 rfl) rfl
+        (by decide) (by decide) rfl]
+      exact Or.inr (opAsh_agree m al c haw hap)
+    · -- op_lsh
+      rw [chiaOp_classic (name := "op_lsh") (f := Interp.opLsh) ((smallNumber_kw how (by decide) (by decide)).2 rfl) rfl
+        (by decide) (by decide) rfl]
+      exact Or.inr (opLsh_agree m al c haw hap)
+    · -- op_lognot
+      rw [chiaOp_classic (name := "op_lognot") (f := Interp.opLognot) ((smallNumber_kw how (by decide) (by decide)).2 rfl) rfl
+        (by decide) (by decide) rfl]
+      exact Or.inr (opLognot_agree m al c haw hap)
+    · -- op_not
+      rw [chiaOp_classic (name := "op_not") (f := Interp.opNot) ((smallNumber_kw how (by decide) (by decide)).2 rfl) rfl
+        (by decide) (by decide) rfl]
+      exact Or.inr (opNot_agree m al c haw hap)
+    · -- op_any
+      rw [chiaOp_classic (name := "op_any") (f := Interp.opAny) ((smallNumber_kw how (by decide) (by decide)).2 rfl) rfl
+        (by decide) (by decide) rfl]
+      exact Or.inr (opAny_agree m al c haw hap)
+    · -- op_all
+      rw [chiaOp_classic (name := "op_all") (f := Interp.opAll) ((smallNumber_kw how (by decide) (by decide)).2 rfl) rfl
+        (by decide) (by decide) rfl]
+      exact Or.inr (opAll_agree m al c haw hap)
+
+
 /-! ### whole runs -/
 
 /-- outcome of a whole run of the model against the reference's -/
@@ -1141,8 +1269,8 @@ def RunOut (ro : Res) (mo : Except Err (Nat × Val × Ctr)) : Prop :=
   | .error e, .ok _ => BadR e
   | .ok _, .error e' => BadM (.err e')
 
-/-- **whole runs on the core fragment**, given the `Apply` position -/
-theorem core_run_agree (prog env : Tree) (budget fuel fuel' : Nat) (hA : ApplyCase (effBudget budget))
+/-- **whole runs on the core fragment** -/
+theorem core_run_agree (prog env : Tree) (budget fuel fuel' : Nat)
     (ro : Res) (mo : Except Err (Nat × Val × Ctr))
     (hr : Ref.runWith coreAd fuel' prog env (Adapter.u64Budget budget) = some ro)
     (hm : modelRun fuel prog env budget = some mo) : RunOut ro mo := by
@@ -1203,7 +1331,7 @@ theorem core_run_agree (prog env : Tree) (budget fuel fuel' : Nat) (hA : ApplyCa
         rw [hml] at hm
         have hml' : mAfter (effBudget budget) fuel 0 (.ok (k, s1)) = some ml := by
           simp only [mAfter, Nat.zero_add]; exact hml
-        have hlo := after_agree (fun fr' sr' sm' cost' ro mo => sim (effBudget budget) hA fuel fr' sr' sm' cost' ro mo)
+        have hlo := after_agree (fun fr' sr' sm' cost' ro mo => sim (effBudget budget) (apply_case dispatch_agree _) fuel fr' sr' sm' cost' ro mo)
           hst hr hml'
         cases ml with
         | error e =>
